@@ -13,6 +13,7 @@ import random
 from scen import Scn
 import scenario_common as sc
 import mcrapid
+import forced
 
 POINTS = ["before-arrival", "before-poll", "after-delivery", "after-response", "after-completion"]
 SUBMISSIONS = [("response", "stale:1"), ("error", "stale:1"), ("response", "unknown"), ("response", "current"), ("error", "current"),
@@ -103,6 +104,8 @@ def run(ctx):
     ctx.level = "model_checking"
     # E1: the property predicates as invariants of the composite (spec/MC_Rapid.tla)
     mcrapid.check(ctx, ['StreamOwnerIsReserver', 'OkHasBody'])
+    # forced schedules through the pause points of /repo (-tags verif)
+    sc.run_families(ctx, forced.scenarios('c02', ('stale-error-in-flight', 'stale-response-in-flight')), "forced-schedule")
     ctx.assumptions += sc.ASSUME
     sc.run_families(ctx, scenarios(ctx), "stale")
     ctx.coverage["exhaustive"] = not ctx.quick
